@@ -5,10 +5,6 @@
 From Dns Require Export Model.Name.
 Open Scope N_scope.
 
-(* length of the run of backslashes at the head of a (reversed) prefix *)
-Fixpoint bs_run (l : bytes) : nat :=
-  match l with b :: r => if b =? 92 then S (bs_run r) else O | [] => O end.
-
 (* NextLabel: [pre] is the reversed prefix s[:i], [rest] = s[i:].
    The Go loop runs while i < len(s)-1, i.e. while [rest] has two or more octets;
    a dot preceded by an even run of backslashes is a separator. *)
@@ -77,14 +73,6 @@ Fixpoint split_go (fuel : nat) (s : bytes) (off : nat) (acc : list nat) : option
 Definition split (s : bytes) : option (list nat) :=
   if is_root s then Some [] else split_go (S (length s)) s O [O].
 
-(* defaults.go IsFqdn: trailing dot preceded by an even number of backslashes.
-   (strings.LastIndexFunc is rune based; the model is octet based and agrees
-   with it on every string whose last non-backslash rune is a single octet.) *)
-Definition is_fqdn (s : bytes) : bool :=
-  match rev s with
-  | 46 :: r => Nat.even (bs_run r)
-  | _ => false
-  end.
 Definition fqdn (s : bytes) : bytes := if is_fqdn s then s else s ++ [46].
 Definition canonical_name (s : bytes) : bytes := lower_bytes (fqdn s).
 
